@@ -24,6 +24,20 @@ Theorem C01_get_field_spec : forall X ord st t, wf_state st -> ok_oracle ord ->
 Proof. exact get_field_spec. Qed.
 Print Assumptions C01_get_field_spec.
 
+(* GetField as doEvaluate calls it: with the exclusions added at run time for the rule being
+   evaluated (ctl:ruleRemoveTargetById/ByTag/ByMsg: regex stored with an empty string key, string key
+   lower-cased, bare collection) appended to the written ones: an entry is removed when a written
+   exclusion accepts its key OR a run-time one hits it - nothing else *)
+Theorem C01_get_field_runtime_exclusions : forall X ord st t, wf_state st -> ok_oracle ord ->
+  Permutation (get_field X ord st (with_rt st (compile_target X t))) (spec_selects_rt X st t).
+Proof. exact get_field_rt_spec. Qed.
+Print Assumptions C01_get_field_runtime_exclusions.
+
+(* SecRuleRemoveById: the remaining rules keep their configuration order *)
+Theorem C01_removal_keeps_order : forall rms rules, subseq (remove_rules rms rules) rules.
+Proof. exact remove_rules_subseq. Qed.
+Print Assumptions C01_removal_keeps_order.
+
 (* the match data of one link: exactly the (variable, key, transformed value) triples that satisfy
    the operator (xor '!'); with multiMatch one triple per satisfying intermediate value.  Each target
    is read in the state the EARLIER targets of the same link left (every match moves MATCHED_VAR,
@@ -33,12 +47,12 @@ Theorem C01_link_matchdata_exact : forall X ord st l, wf_state st -> ok_oracle o
 Proof. exact link_matches_spec_t. Qed.
 Print Assumptions C01_link_matchdata_exact.
 
-(* ... and for a link that reads none of the MATCHED_* variables this is the order-free, state-free
-   list: every target selected in the state before the link *)
+(* ... and for a link that reads none of the MATCHED_* variables this is the order-free
+   list: every target selected in the state before the link (run-time exclusions included) *)
 Theorem C01_link_matchdata_declarative : forall X ord st l, wf_state st -> ok_oracle ord ->
   reads_mvar l = false ->
-  Permutation (link_matches X ord st l) (spec_link_matches X st l).
-Proof. exact link_matches_spec. Qed.
+  Permutation (link_matches X ord st l) (spec_link_matches_rt X st l).
+Proof. exact link_matches_spec_rt. Qed.
 Print Assumptions C01_link_matchdata_declarative.
 
 (* a rule fires iff every link holds, in order, each against the state its predecessor left *)
@@ -51,8 +65,8 @@ Print Assumptions C01_fires_iff.
    that satisfies its operator after the transformations (xor '!') - no reference to the order oracle *)
 Theorem C01_fires_iff_declarative : forall X ord st r, wf_state st -> ok_oracle ord ->
   Forall (fun l => reads_mvar l = false /\ is_action l = false) (rule_links r) ->
-  (rule_fires X ord st r = true <-> Forall (link_holds X st) (rule_links r)).
-Proof. exact rule_fires_declarative. Qed.
+  (rule_fires X ord st r = true <-> Forall (link_holds_rt X st) (rule_links r)).
+Proof. exact rule_fires_declarative_rt. Qed.
 Print Assumptions C01_fires_iff_declarative.
 
 (* the match data of a fired rule: exactly the satisfying triples of every link, with chain levels *)
